@@ -287,3 +287,40 @@ Print Assumptions C08_refinement_pairs_nodup.
 (* the hypotheses are satisfiable: a 4-leaf star over a 3-leaf star, 45 refinement pairs *)
 Example C08_poly_example := poly_example.
 
+(** ** every binary refinement, whatever the order of its children (Proofs/PolyInvProofs.v)
+
+    The binary optimum of the extended solvers does not depend on the order of the children
+    of the refinement (species names pairwise distinct, so that looking a species up by name
+    is unambiguous); hence the value returned on the polytomous input is a lower bound of the
+    binary optimum on EVERY pair of binary refinements, and it is attained by an enumerated pair. *)
+From SR Require Import Proofs.PolyInvProofs.
+
+Theorem C08_child_order_invariance : forall c,
+  nn (c_hgt c) -> coherent_ord c -> ucoherent c ->
+  forall ld ob sb ob' sb' p p',
+  NoDup (names (blabels sb)) -> beqv ob ob' -> beqv sb sb' ->
+  pair_input ld (ob, sb) = Some p -> pair_input ld (ob', sb') = Some p' ->
+  spfs_binopt c RALL true p = spfs_binopt c RALL true p' /\
+  uspfs_binopt c RALL true p = uspfs_binopt c RALL true p'.
+Proof. exact child_order_invariance. Qed.
+Print Assumptions C08_child_order_invariance.
+
+Theorem C08_ext_optimum_all_refinements : forall c ld o s,
+  nn (c_hgt c) -> NoDup (names (rlabels s)) -> coherent_ord c -> poly_wf nonempty_syn ld o s ->
+  exists e, spfs_poly c RALL ld o s = Some e /\
+    (forall ob' sb' p', refines o ob' -> refines s sb' -> pair_input ld (ob', sb') = Some p' ->
+       ele (val e) (spfs_binopt c RALL true p')) /\
+    (exists i p, refinement_input ld o s i p /\ val e = spfs_binopt c RALL true p).
+Proof. exact ext_optimum_all_refinements. Qed.
+Print Assumptions C08_ext_optimum_all_refinements.
+
+Theorem C08_ext_optimum_all_refinements_unordered : forall c ld o s,
+  nn (c_hgt c) -> NoDup (names (rlabels s)) -> ucoherent c -> poly_wf any_syn ld o s ->
+  exists e, uspfs_poly c RALL ld o s = Some e /\
+    (forall ob' sb' p', refines o ob' -> refines s sb' -> pair_input ld (ob', sb') = Some p' ->
+       ele (val e) (uspfs_binopt c RALL true p')) /\
+    (exists i p, refinement_input ld o s i p /\ val e = uspfs_binopt c RALL true p).
+Proof. exact ext_optimum_all_refinements_unordered. Qed.
+Print Assumptions C08_ext_optimum_all_refinements_unordered.
+
+Example C08_all_refinements_example := all_refinements_example.
